@@ -44,13 +44,19 @@ Definition must_products_upto (x : input) (bp : Z) (h : list variant) : list seq
              (translate_from hs st (map (shift h) (in_sec x))))
     (filter (fun st => st + 3 <=? shift h bp) (must_starts x hs)).
 
+(* haplotypes that combine donor records with acceptor records are not obliged (the engine places acceptor
+   indels differently once a donor indel precedes them: left to MAY) *)
+Definition one_partner (bp : Z) (h : list variant) : bool :=
+  forallb (fun v => v_e v <=? bp) h || forallb (fun v => bp <=? v_s v) h.
+
 Definition must_fusion_set (xd : input) (bp : Z) (xa : input) (bp' : Z) : list seq :=
   let x := fuse_strict xd bp xa bp' in
   if in_coding xd && negb (in_coding x) then []        (* breakpoint inside / before the start codon: nothing obliged *)
   else if existsb (fun p => (p - 3 <? bp) && (bp <=? p + 6)) (in_sec xd) then []   (* breakpoint at a Sec codon *)
   else
   filter (fun p => negb (mem_seq p (ref_products xd)) && negb (mem_seq p (in_pool xd)))
-         (must_products_upto x bp [] ++ flat_map (must_products_upto x bp) (must_haps x)).
+         (must_products_upto x bp [] ++
+          flat_map (must_products_upto x bp) (filter (one_partner bp) (must_haps x))).
 
 (* signature of C02-fusion-sec-at-breakpoint: the engine keeps a donor Sec only if its codon ends strictly
    before the breakpoint (sect_variants with location.end < breakpoint): a Sec codon that ends exactly at
